@@ -187,12 +187,12 @@ PARSE_NOTE = ("Trusted: Lean kernel + propext/Classical.choice/Quot.sound; cobra
               "Modelled: internal/pflagfork LookupArg / Consumes, the offer rules of actionFlags and IsMutuallyExclusive. traverse itself is not modelled.")
 
 PROPS.update({
-    "C01": {"modules": ["Carapace.Props.C01", "Carapace.Props.C01Slots"], "ops": [("parse", {"quick": 5000, "thorough": 250000}), ("lookuparg", {"quick": 4000, "thorough": 200000}), ("pflagparse", {"quick": 4000, "thorough": 200000})],
+    "C01": {"modules": ["Carapace.Props.C01", "Carapace.Props.C01Slots", "Carapace.Props.C01Flag"], "ops": [("parse", {"quick": 5000, "thorough": 250000}), ("lookuparg", {"quick": 4000, "thorough": 200000}), ("pflagparse", {"quick": 4000, "thorough": 200000})],
             "rule": PARSE_RULE, "assumptions": PARSE_ASSUME, "claimed": True, "engine": "parse",
             "level_text": ("Partial proof + exact correspondence + decision on the real code. "
                            "Models: `traverseSlot` (Model/Traverse.lean: the classification loop of traverse.go over the earlier words, the fix-up of the words handed to the parser, descent into sub-commands, the final case distinction) and `Pflag.parse` (Spec/Pflag.lean: the program's own parser - parseArgs / parseLongArg / parseShortArg of carapace-pflag, POSIX mode). "
                            "Proved: stage 1 - `C01_short_agrees` (for every POSIX flag set in which no flag uses `=` as its shorthand and every shorthand chain the parser does not reject, carapace's LookupArg + Consumes expects the next word to be the value of flag f exactly when the parser takes it as f's value; the hypothesis was forced by the proof and has a decided counterexample), `C01_long_attached`; "
-                           "stages 2-3 for a program with a single command - `C01_positional_lands` (if the model completes positional argument k for a word not starting with `-`, then any word typed there that does not look like a flag is accepted by the parser, given that it accepts the line so far, and becomes exactly positional argument k) and `C01_dash_lands` (likewise for argument k after `--`, for any word; hypothesis: no flag is waiting for its value), resting on `parseArgs_snoc` (the parser's result on `ws ++ [w]` from its result on `ws`, by induction over the line) and `loop_single`. Not proved: the flag-value slot beyond stage 1, and programs with sub-commands (the listed descent findings live there). "
+                           "stages 2-3 for a program with a single command - `C01_positional_lands` (if the model completes positional argument k for a word not starting with `-`, then any word typed there that does not look like a flag is accepted by the parser, given that it accepts the line so far, and becomes exactly positional argument k) `C01_dash_lands` (likewise for argument k after `--`, for any word; hypothesis: no flag is waiting for its value) and, for interspersed commands, `C01_flag_value_lands` (if the model completes the value of flag f, any word of f's type typed there is accepted and is assigned to f as the last assignment of the line: `long_pending`, `short_pending`, the loop invariant `loop_pend` - a flag that waits for its value is the last word - and `parseArgs_append_inter`), resting on `parseArgs_snoc` (the parser's result on `ws ++ [w]` from its result on `ws`, by induction over the line) and `loop_single`. Not proved: non-interspersed commands for the flag-value slot, attached values (`--flag=<TAB>`), and programs with sub-commands (the listed descent findings live there). "
                            "Ties: `Pflag.parse` = the real parser on every generated line (op `pflagparse`); `traverseSlot` = the slot the real traverse serves, observed through per-slot marker values, on every generated line incl. sub-command descent, parse errors, DisableFlagParsing, non-interspersed commands (op `parse`); LookupArg / Consumes model = internal/pflagfork (op `lookuparg`). "
                            "Decided on the real code: every offered candidate carries a marker of the slot that produced it; it is appended to the line and the line is executed by the program's own cobra/pflag on a fresh tree: it must land in that slot (command, positional index, index after the dash, flag)."),
             "level_note": PARSE_NOTE},
